@@ -33,21 +33,45 @@ package compiler
 // a constant wraps a machine value, never another resource descriptor
 //@ typeinv program.Constant: !isRes(self.Inner) // C12 C08
 
-// ---- typing rules of the instructions with a fixed stack effect (vm/machine.go tick)
+// ---- typing rules of the instructions (vm/machine.go tick)
+// A slot of tstack is ty + 16*(k+1): ty is the machine.Type, k the number the slot is statically known to hold
+// (a count pushed by PushInteger, the size of an allotment), or ty alone when no number is known.
+//@ def ty(e) = e % 16
+//@ def num(e) = e / 16 - 1
+//@ def code(t, k) = t + 16 * (k + 1)
 //@ def n(s) = len(s)
 //@ def t0(s) = s[len(s)-1]
 //@ def t1(s) = s[len(s)-2]
 //@ def t2(s) = s[len(s)-3]
-//@ def binop(o) = o == program.OP_IADD || o == program.OP_ISUB || o == program.OP_MONETARY_ADD || o == program.OP_MONETARY_SUB
 // opTyped(o, s): the values instruction o pops with a typed pop have the right types
-//@ def opTyped(o, s) = ((o == program.OP_IADD || o == program.OP_ISUB) ==> n(s) >= 2 && t0(s) == 3 && t1(s) == 3) && ((o == program.OP_MONETARY_ADD || o == program.OP_MONETARY_SUB) ==> n(s) >= 2 && t0(s) == 5 && t1(s) == 5) && (o == program.OP_MONETARY_NEW ==> n(s) >= 2 && t0(s) == 3 && t1(s) == 2)
-// opResult(o, s): the stack types after o (instructions whose effect depends on run-time numbers leave it unknown)
+//@ def opTyped(o, s) = ((o == program.OP_IADD || o == program.OP_ISUB) ==> n(s) >= 2 && ty(t0(s)) == 3 && ty(t1(s)) == 3)
+//@ ... && ((o == program.OP_MONETARY_ADD || o == program.OP_MONETARY_SUB) ==> n(s) >= 2 && ty(t0(s)) == 5 && ty(t1(s)) == 5)
+//@ ... && (o == program.OP_MONETARY_NEW ==> n(s) >= 2 && ty(t0(s)) == 3 && ty(t1(s)) == 2)
+//@ ... && (o == program.OP_TX_META ==> n(s) >= 2 && ty(t0(s)) == 4)
+//@ ... && (o == program.OP_ACCOUNT_META ==> n(s) >= 3 && ty(t0(s)) == 1 && ty(t1(s)) == 4)
+//@ ... && (o == program.OP_PRINT ==> n(s) >= 1)
+//@ ... && (o == program.OP_SAVE ==> n(s) >= 2 && ty(t0(s)) == 1 && (ty(t1(s)) == 2 || ty(t1(s)) == 5))
+//@ ... && (o == program.OP_MAKE_ALLOTMENT ==> n(s) >= 1 && ty(t0(s)) == 3 && num(t0(s)) >= 0 && n(s) >= num(t0(s)) + 1 && (forall j0 in 0..num(t0(s)) :: ty(s[len(s)-2-j0]) == 6))
+// opResult(o, s): the stack after o (instructions not listed leave it unknown: they are not under this discipline yet)
 //@ ufun unknownStack(o int, s []int) []int
-//@ def opResult(o, s) = ite(o == program.OP_IADD || o == program.OP_ISUB, snoc(s[:len(s)-2], 3), ite(o == program.OP_MONETARY_ADD || o == program.OP_MONETARY_SUB || o == program.OP_MONETARY_NEW, snoc(s[:len(s)-2], 5), unknownStack(o, s)))
+//@ def opResult(o, s) = ite(o == program.OP_IADD || o == program.OP_ISUB, snoc(s[:len(s)-2], 3),
+//@ ... ite(o == program.OP_MONETARY_ADD || o == program.OP_MONETARY_SUB || o == program.OP_MONETARY_NEW, snoc(s[:len(s)-2], 5),
+//@ ... ite(o == program.OP_TX_META || o == program.OP_SAVE, s[:len(s)-2],
+//@ ... ite(o == program.OP_ACCOUNT_META, s[:len(s)-3],
+//@ ... ite(o == program.OP_PRINT, s[:len(s)-1],
+//@ ... ite(o == program.OP_FAIL, s,
+//@ ... ite(o == program.OP_MAKE_ALLOTMENT, snoc(s[:len(s)-1-num(t0(s))], code(7, num(t0(s)))),
+//@ ... unknownStack(o, s))))))))
 
+// the discipline is enforced in the functions listed here; the source / destination compilers (BUMP-based stack
+// shuffling over a run-time number of fundings) are outside it except for the targeted rules below
 //@ func (*compiler.parseVisitor).AppendInstruction
 //@   requires p != nil
-//@   requires opTyped(instruction, tstack) // C12 C08
+//@   requires in VisitExpr, VisitLit, VisitVariable, VisitAllotment, VisitSetTxMeta, VisitSetAccountMeta, VisitPrint, VisitSaveFromAccount: opTyped(instruction, tstack) // C12 C08
+// an allotment source: OP_ALLOC is only emitted on top of a successfully compiled allotment
+//@   requires in VisitValueAwareSource, VisitMonetary: instruction == program.OP_ALLOC ==> n(tstack) >= 1 && ty(t0(tstack)) == 7 // C12 C08
+// save: the account whose balance OP_SAVE rewrites is one whose balances the machine loads
+//@   requires in VisitSaveFromAccount: instruction == program.OP_SAVE ==> mark(deref(local(addr))) && has(p.neededBalances, deref(local(addr))) // C12
 //@   update tstack = opResult(instruction, tstack)
 //@   modifies parseVisitor.instructions, ghost tstack
 
@@ -55,6 +79,13 @@ package compiler
 //@   requires p != nil && addr < len(p.resources)
 //@   update tstack = snoc(tstack, resType(p.resources[addr]))
 //@   modifies parseVisitor.instructions, ghost tstack
+
+// pushes the constant val (a count): the slot remembers the number
+//@ func (*compiler.parseVisitor).PushInteger
+//@   requires p != nil && len(p.resources) <= 65536 && val != nil && val(val) >= 0
+//@   ensures grows(p) && p.varIdx == old(p.varIdx) && len(p.resources) <= 65536
+//@   update tstack = ite(err == nil, snoc(tstack, code(3, val(val))), tstack)
+//@   modifies parseVisitor.instructions, parseVisitor.resources, ghost tstack
 
 // ---- the resource table: entries are only ever appended, so an address keeps its resource (and its type)
 //@ def grows(p) = len(p.resources) >= old(len(p.resources)) && (forall i0 in 0..old(len(p.resources)) :: p.resources[i0] == old(p.resources[i0]))
@@ -118,3 +149,74 @@ package compiler
 //@   ensures grows(p) && pvInv(p)
 //@   modifies parseVisitor.instructions, parseVisitor.resources, ghost tstack
 //@   property C12 C08
+
+// ---- allotments: one portion per element, then their count, then OP_MAKE_ALLOTMENT
+// grammar fact: a portion is a constant, a variable or `remaining` (NumScript.g4 allotmentPortion)
+//@ func (*compiler.parseVisitor).VisitAllotment
+//@   requires pvInv(p)
+//@   assumes forall j3 in 0..len(portions) :: typeis(portions[j3], "*parser.AllotmentPortionConstContext") || typeis(portions[j3], "*parser.AllotmentPortionVarContext") || typeis(portions[j3], "*parser.AllotmentPortionRemainingContext")
+//@   ensures ret == nil ==> tstack == snoc(old(tstack), code(7, len(portions))) // C12 C08
+//@   ensures grows(p) && pvInv(p)
+//@   loop 1 invariant 0 - 1 <= i && i <= len(portions) - 1 && pvInv(p) && grows(p)
+//@   loop 1 invariant len(tstack) == len(old(tstack)) + (len(portions) - 1 - i)
+//@   loop 1 invariant forall j1 in 0..len(old(tstack)) :: tstack[j1] == old(tstack)[j1]
+//@   loop 1 invariant forall j2 in len(old(tstack))..len(tstack) :: tstack[j2] == 6
+//@   modifies parseVisitor.instructions, parseVisitor.resources, ghost tstack
+//@   property C12 C08
+
+// ---- statements leave the stack as they found it
+//@ func (*compiler.parseVisitor).VisitSetTxMeta
+//@   requires pvInv(p)
+//@   ensures ret == nil ==> tstack == old(tstack) // C12 C08
+//@   ensures grows(p) && pvInv(p)
+//@   modifies parseVisitor.instructions, parseVisitor.resources, ghost tstack
+//@   property C12 C08
+
+//@ func (*compiler.parseVisitor).VisitSetAccountMeta
+//@   requires pvInv(p)
+//@   ensures ret == nil ==> tstack == old(tstack) // C12 C08
+//@   ensures grows(p) && pvInv(p)
+//@   modifies parseVisitor.instructions, parseVisitor.resources, ghost tstack
+//@   property C12 C08
+
+//@ func (*compiler.parseVisitor).VisitPrint
+//@   requires pvInv(p)
+//@   ensures ret == nil ==> tstack == old(tstack) // C12 C08
+//@   ensures grows(p) && pvInv(p)
+//@   modifies parseVisitor.instructions, parseVisitor.resources, ghost tstack
+//@   property C12 C08
+
+// grammar fact: `save <monetary | [asset *]> from <account>` has one of the two forms
+//@ func (*compiler.parseVisitor).VisitSaveFromAccount
+//@   requires pvInv(p) && p.neededBalances != nil
+//@   assumes lib("(*parser.SaveFromAccountContext).GetMonAll", c) != nil || lib("(*parser.SaveFromAccountContext).GetMon", c) != nil
+//@   ensures ret == nil ==> tstack == old(tstack) // C12 C08
+//@   ensures grows(p) && pvInv(p)
+//@   modifies parseVisitor.instructions, parseVisitor.resources, map[machine.Address]map[machine.Address]struct{}, map[machine.Address]struct{}, ghost tstack
+//@   nopanic
+//@   property C12 C08
+
+// the allotment of an allotment source must have compiled before OP_ALLOC is emitted (targeted rule on AppendInstruction)
+//@ func (*compiler.parseVisitor).VisitValueAwareSource
+//@   requires pvInv(p)
+//@   alsofor C12 C08
+//@ func (*compiler.parseVisitor).VisitMonetary
+//@   requires pvInv(p)
+//@   alsofor C12 C08
+
+// not under contract yet: a call may change anything (no fact is assumed about it)
+//@ func (*compiler.parseVisitor).VisitSource
+//@   modifies all
+//@   trusted nothing is assumed: every heap component and ghost variable is forgotten at a call
+
+// every listed account gets an entry in the table of balances the machine must load
+//@ func (*compiler.parseVisitor).setNeededBalances
+//@   requires p != nil && addr != nil && p.neededBalances != nil
+//@   ensures forall a0 machine.Address :: old(has(accounts, a0)) ==> has(p.neededBalances, a0) // C12
+//@   ensures forall a1 machine.Address :: old(has(p.neededBalances, a1)) ==> has(p.neededBalances, a1)
+//@   loop 1 invariant forall a2 machine.Address :: in(a2, visited) ==> has(p.neededBalances, a2)
+//@   loop 1 invariant forall a4 machine.Address :: old(has(accounts, a4)) ==> has(accounts, a4)
+//@   loop 1 invariant forall a3 machine.Address :: old(has(p.neededBalances, a3)) ==> has(p.neededBalances, a3)
+//@   loop 1 invariant p.neededBalances == old(p.neededBalances) && p.neededBalances != nil
+//@   modifies map[machine.Address]map[machine.Address]struct{}, map[machine.Address]struct{}
+//@   property C12
